@@ -48,6 +48,8 @@ def run(ctx):
     ctx.floor("inv", "cursor invariant obligations", len(proven), 3)
     # ---- local side conditions named by reviewed entries
     side_rules(ctx, cg)
+    side_rules_2(ctx)
+    side_rules_3(ctx)
     # ---- side conditions of the reviewed entries (evaluated lazily, once)
     side = RV.SideConditions(ctx)
     n_sites, n_dis, by_rule = check_sites(ctx, D, side, reach, "site")
@@ -166,6 +168,61 @@ def side_rules(ctx, cg):
     for v in sorted(dead):
         ctx.check(v not in built, "S1", "never-built-below-the-cache:%s" % v, built.get(v, ctx.where(hb)),
                   "clone_out_reply panics on Error::%s, so nothing the cache calls may build it" % v)
+
+
+def side_rules_2(ctx):
+    """S2: the IPv4-in-IPv6 branch of Prefix6::contains(Ipv4Addr) inspects the octets of network() — the masked address — so the
+    ::ffff:0:0/96 pattern can only be seen when prefixlen >= 96 (the subtraction prefixlen - 96 relies on it)"""
+    P = ctx.P
+    fns = [f for f in P.bodies if "config::Prefix6 as" in f and "Match<std::net::Ipv4Addr>" in f and f.endswith("::contains")]
+    if not fns:
+        ctx.bad("S2", "anchor:Prefix6::contains(Ipv4Addr)", "", "mapped-prefix containment not found")
+        return
+    b = P.bodies[fns[0]]
+    T = terms(P, b)
+    srcs = []
+    for bb, tm in b.calls():
+        if (callee_name(tm) or "").endswith("Ipv6Addr::octets"):
+            srcs.append(norm(T.call_args(bb)[0]))
+    good = bool(srcs) and all(x[0] == "call" and str(x[1]).rsplit("::", 1)[-1] == "network" for x in srcs)
+    ctx.check(good, "S2", "mapped-pattern-tested-on-the-masked-address", ctx.where(b),
+              "the ::ffff:a.b.c.d pattern must be matched against self.network().octets(): matched against the address as written, a "
+              "mapped prefix shorter than /96 reaches `prefixlen - 96` (octets taken from: %s)" % [show(x)[:60] for x in srcs])
+
+
+def side_rules_3(ctx):
+    """S3: the client cookie handed out by EdnsData::get_cookie is exactly 8 octets (`data.get(..8)?` or an equivalent checked
+    slice): the reply path echoes it through set_cookie, which asserts that length"""
+    P = ctx.P
+    fns = [f for f in P.bodies if f.endswith("dnspkt::EdnsData::get_cookie")]
+    if not fns:
+        if ctx.config in ("default", "dns"):
+            ctx.bad("S3", "anchor:get_cookie", "", "cookie accessor not found")
+        return
+    n = 0
+    for b in P.family(fns[0]):
+        T = terms(P, b)
+        for bb, idx, st in b.stmts():
+            rv = st.get("rv")
+            if not (rv and rv["k"] == "agg" and rv["akind"] == "tuple" and len(rv["ops"]) == 2):
+                continue
+            t = norm(T.rvalue(rv, bb, idx))
+            first = norm(t[3][0][1])
+            n += 1
+            good = False
+            src = first
+            if src[0] == "payload":
+                src = norm(src[2])
+            if src[0] == "call" and (str(src[1]).endswith("<impl [T]>::get") or oblig.INDEX_FNS.search(str(src[1]))) and len(src[2]) == 2:
+                r = norm(src[2][1])
+                if r[0] == "agg" and r[1].endswith("RangeTo") and norm(dict(r[3])["end"]) == ("const", 8):
+                    good = True
+                if r[0] == "agg" and r[1].endswith("ops::Range") and norm(dict(r[3])["start"]) == ("const", 0) and norm(dict(r[3])["end"]) == ("const", 8):
+                    good = True
+            ctx.check(good, "S3", "client-cookie-is-exactly-8-octets", ctx.where(b, st["sp"]),
+                      "the first component returned by get_cookie must be data[..8] obtained with a check (is %s): a shorter client cookie "
+                      "reaches set_cookie's length assertion when the reply is built" % show(first)[:100])
+    ctx.floor("S3", "cookie pairs built by the accessor", n, 1)
 
 
 def _straight_to_panic(cfg, bb, panics):
